@@ -180,6 +180,7 @@ type worker struct {
 	sideInit map[*value]*omap // ... to objects created by package initialisers
 	clock    *Term
 	nclk     int
+	clockStep int64
 	panicStack []string
 	panicAt    string
 	local      *localCtx
@@ -403,6 +404,7 @@ func (w *worker) runPath(fn *ssa.Function, it *workItem) {
 	w.side = map[*value]*omap{}
 	w.clock = nil
 	w.nclk = 0
+	w.clockStep = 0
 	w.panicStack = nil
 	w.panicAt = ""
 	w.local = nil
@@ -865,13 +867,14 @@ func (w *worker) modelUsable() bool {
 
 func (w *worker) currentModel() *model {
 	if w.m != nil {
+		// string inversion reads the values of THIS path's auxiliary terms: a cached
+		// model (read earlier on this path, before later facts were noted, or on the
+		// path this one was forked from, or by another worker) does not have them
 		needTerms := false
-		if w.m.home != w.s {
-			for _, in := range w.inputs {
-				if in.w == wStr {
-					needTerms = true // string inversion reads values of this worker's terms
-					break
-				}
+		for _, in := range w.inputs {
+			if in.w == wStr {
+				needTerms = true
+				break
 			}
 		}
 		if !needTerms {
